@@ -13,7 +13,8 @@
 //	conn <id>                  Listener.GetTrafficShapedConn over a recording in-memory conn
 //	ctx <id> <u> <rs> <hl> <f> what proxy.go does before writing a response: URL class u (a|b|c|n),
 //	                           range start rs (-1 = multipart/invalid), dumped head length hl,
-//	                           f = - | <n>: swap in a local bucket of capacity n draining every 200µs
+//	                           f = - | <n> | <n>/<g> | -/<g>: swap in a local bucket of capacity n and/or a bucket of
+//	                           capacity g shared by all connections of the shape, both draining every 200µs
 //	write <id> <hex>           Conn.Write
 //	close <id>                 Conn.Close
 //	par <n> <u> <rs> <hl> <f> <hex>   n concurrent connections write the same response (oracle only)
@@ -31,7 +32,8 @@
 //
 // end-to-end tier (e2e.go): a real martian.Proxy serving the shaped listener over TCP, origin = RoundTripper
 //
-//	dial <id>                  TCP client connection, waits until the proxy accepted it (model op: conn <id>)
+//	dial <id> [g]              TCP client connection, waits until the proxy accepted it (model op: conn <id>);
+//	                           g: the shared (global) bucket of every shape is a real bucket of capacity g draining every 200µs
 //	req <id> <u> <R> <len>     one exchange on the keep-alive connection; R = - | <k> (Range: bytes=k-, 206)
 //	                           | m<k> (multipart/byteranges 206) | x<k> (206 without usable Content-Range)
 //	                           (model op: resp <id> <u> <rs> <hl> <len>)
@@ -338,17 +340,18 @@ type ex struct {
 	extra      []*trafficshape.Bucket
 	replaced   int
 	slack      int
-	confirmed  bool                   // a goroutine surplus was confirmed with the long wait
-	cfgBuckets []*trafficshape.Bucket // global buckets of accepted configurations (reaped at the very end of the case)
-	poisoned   string                 // a panic or a hang inside the code under test: the rest of the case is skipped
-	pendCfg    *pendingConfig         // a configuration request whose upload is stalled (inter.go)
-	nParked    int                    // writes parked inside the inner conn (they hold bucket mutexes)
-	w          *e2eWorld              // real proxy on the shaped listener (e2e.go), started by the first `dial`
+	confirmed  bool                            // a goroutine surplus was confirmed with the long wait
+	gfast      map[string]*trafficshape.Bucket // shared (global) fast buckets swapped in by the harness, per pattern
+	cfgBuckets []*trafficshape.Bucket          // global buckets of accepted configurations (reaped at the very end of the case)
+	poisoned   string                          // a panic or a hang inside the code under test: the rest of the case is skipped
+	pendCfg    *pendingConfig                  // a configuration request whose upload is stalled (inter.go)
+	nParked    int                             // writes parked inside the inner conn (they hold bucket mutexes)
+	w          *e2eWorld                       // real proxy on the shaped listener (e2e.go), started by the first `dial`
 }
 
 // expected is the number of drain goroutines the harness can account for right now.
 func (e *ex) expected() int {
-	n := e.base + e.cfgLoops + len(e.extra) + e.slack
+	n := e.base + e.cfgLoops + len(e.extra) + len(e.gfast) + e.slack
 	if e.tsl != nil {
 		n += 2
 	}
@@ -444,6 +447,10 @@ func (e *ex) closeAll() {
 		b.Close()
 	}
 	e.extra = nil
+	for _, b := range e.gfast {
+		b.Close()
+	}
+	e.gfast = nil
 	if e.tsl != nil {
 		e.tsl.Close()
 		e.tsl = nil
@@ -508,8 +515,12 @@ func (e *ex) do(op string) core.Result {
 		return e.doCfgStart(t[1:])
 	case t[0] == "cfgend" && len(t) == 1:
 		return e.doCfgEnd()
-	case t[0] == "dial" && len(t) == 2:
-		return e.doDial(t[1])
+	case t[0] == "dial" && (len(t) == 2 || len(t) == 3):
+		g := ""
+		if len(t) == 3 {
+			g = t[2]
+		}
+		return e.doDial(t[1], g)
 	case t[0] == "req" && len(t) == 5:
 		return e.doReq(t[1], t[2], t[3], t[4])
 	case t[0] == "hangup" && len(t) == 2:
@@ -981,17 +992,50 @@ func nextStr(n *trafficshape.NextActionInfo) string {
 	return fmt.Sprintf("%d@%d", n.Index, n.ByteOffset)
 }
 
+// useFast swaps in small real buckets that drain every 200µs: f = - | <n> | <n>/<g> | -/<g>.  n is the
+// capacity of the connection's own write bucket, g the capacity of the bucket SHARED by every
+// connection of the shape (max_global_bandwidth), so that the two capacities are independent, the
+// shared bucket is partly used by whoever wrote last, and no wall-clock seconds are needed.
 func (e *ex) useFast(c *trafficshape.Conn, f string) {
 	if f == "-" || !c.Context.Shaping {
 		return
 	}
-	n, _ := strconv.ParseInt(f, 10, 64)
-	if n < 1 {
-		n = 1
+	nS, gS := f, ""
+	if i := strings.IndexByte(f, '/'); i >= 0 {
+		nS, gS = f[:i], f[i+1:]
 	}
-	b := trafficshape.NewBucket(n, 200*time.Microsecond)
-	e.extra = append(e.extra, b)
-	c.Context.Buckets = &trafficshape.Buckets{ReadBucket: c.Context.Buckets.ReadBucket, WriteBucket: b}
+	if nS != "-" {
+		n, _ := strconv.ParseInt(nS, 10, 64)
+		if n < 1 {
+			n = 1
+		}
+		b := trafficshape.NewBucket(n, 200*time.Microsecond)
+		e.extra = append(e.extra, b)
+		c.Context.Buckets = &trafficshape.Buckets{ReadBucket: c.Context.Buckets.ReadBucket, WriteBucket: b}
+	}
+	if gS != "" {
+		g, _ := strconv.ParseInt(gS, 10, 64)
+		c.Context.GlobalBucket = e.sharedFast(c.Context.URLRegex, g)
+		core.Count("ctx:shared-bucket-limited")
+	}
+}
+
+// sharedFast: one small fast-draining bucket per pattern and case, shared by all its connections.
+func (e *ex) sharedFast(regex string, g int64) *trafficshape.Bucket {
+	if g < 1 {
+		g = 1
+	}
+	if e.gfast == nil {
+		e.gfast = map[string]*trafficshape.Bucket{}
+	}
+	b, ok := e.gfast[regex]
+	if !ok {
+		b = trafficshape.NewBucket(g, 200*time.Microsecond)
+		e.gfast[regex] = b
+	} else if b.Capacity() != g {
+		b.SetCapacity(g)
+	}
+	return b
 }
 
 func (e *ex) doCtx(id, u, rsS, hlS, f string) core.Result {
@@ -1005,6 +1049,10 @@ func (e *ex) doCtx(id, u, rsS, hlS, f string) core.Result {
 	setContext(cs.c, url, rs, hl)
 	e.useFast(cs.c, f)
 	ctx := cs.c.Context
+	mop := "" // the model's adversary stands for both buckets: it is not told the shared capacity
+	if i := strings.IndexByte(f, '/'); i >= 0 {
+		mop = fmt.Sprintf("ctx %s %s %s %s %s", id, u, rsS, hlS, f[:i])
+	}
 	// oracle bookkeeping: is this response expected to be shaped at all?
 	r := &resp{rs: rs, hl: hl, headLeft: hl, pos: rs, gen: e.gen}
 	if os, has := e.cfg[u]; has && cs.gen == e.gen && rs > -1 {
@@ -1016,7 +1064,7 @@ func (e *ex) doCtx(id, u, rsS, hlS, f string) core.Result {
 		if r.shaped {
 			return fail("c18:matching-url-not-shaped", "URL %s matches shape %s of the configuration the connection was accepted under, but no shaping context was set", url, u)
 		}
-		return core.Result{Impl: "ctx shaping=0"}
+		return core.Result{Impl: "ctx shaping=0", ModelOp: mop}
 	}
 	core.Count("ctx:shaped")
 	thr := "none"
@@ -1024,7 +1072,7 @@ func (e *ex) doCtx(id, u, rsS, hlS, f string) core.Result {
 		thr = strconv.FormatInt(ctx.ThrottleContext.Bandwidth, 10)
 	}
 	return core.Result{Impl: fmt.Sprintf("ctx shaping=1 regex=%s next=%s thr=%s cap=%d", idOfRegex[ctx.URLRegex], nextStr(ctx.NextActionInfo), thr,
-		ctx.Buckets.WriteBucket.Capacity())}
+		ctx.Buckets.WriteBucket.Capacity()), ModelOp: mop}
 }
 
 func (e *ex) counts(regexID string) string {
